@@ -35,10 +35,15 @@ class Gen:
         else:
             nl = r.choice([0, 5, 255, 256, 257]); dl = r.choice([0, 2000, 2001, 4096, 4097]); ad = r.choice([0, 1, 100, 101])
         img = r.choice([0, 0, 7])
-        if r.random() < 0.6:
+        x = r.random()
+        if x < 0.6:
             li = la = lp = None
-        else:
+        elif x < 0.9 or not self.p.get("partial_ptr", True):
             li, la, lp = r.choice(MIDS), r.choice(TS), r.choice(TS)
+        else:
+            # a pointer whose three fields were NOT written together (rows backfilled by an older schema): the fallback arms of
+            # Group::update_last_message_if_newer — Model.Store.dominates has them, no history reached them (mutation campaign, M0065)
+            li, la, lp = r.choice([(r.choice(MIDS), r.choice(TS), None), (None, r.choice(TS), None), (None, r.choice(TS), r.choice(TS))])
         return f"save_group {gid} {nid} {nl} {dl} {ad} {img} {o(li)} {o(la)} {o(lp)} {r.choice(EPOCHS)} {r.choice([0,0,0,1,2])} {r.choice([0,0,50])}"
 
     def message(self, gid=None, mid=None, within=True):
